@@ -205,6 +205,7 @@ func c15(c *Ctx) {
 	c.checkLengthWalk()
 	c.checkKeyMatchExact()
 	c.checkIteratorYieldsKey()
+	c.checkFoundIffNonNil()
 	c.checkOverread()
 }
 
@@ -449,6 +450,26 @@ func (c *Ctx) checkAbsentName() {
 					}
 				}
 			}
+			// else form: if Exists { name = … } else { name = "" } — the absent block only jumps to the join, whose phi takes ""
+			if len(absent.Preds) == 1 && len(absent.Succs) == 1 {
+				j := absent.Succs[0]
+				for _, ins := range j.Instrs {
+					phi, ok := ins.(*ssa.Phi)
+					if !ok {
+						break
+					}
+					if !isBasic(phi.Type(), types.String) {
+						continue
+					}
+					for i, e := range phi.Edges {
+						if j.Preds[i] == absent {
+							if k, ok := e.(*ssa.Const); ok && k.Value != nil && k.Value.Kind() == constant.String && constant.StringVal(k.Value) == "" {
+								good = true
+							}
+						}
+					}
+				}
+			}
 			// phi form: name := ""; if Exists { name = … }
 			for _, s := range []*ssa.BasicBlock{absent} {
 				for _, ins := range s.Instrs {
@@ -601,19 +622,30 @@ func (c *Ctx) checkFullScan(ts []*types.Named) {
 			if u, ok := cond.(*ssa.UnOp); ok && u.Op == token.NOT {
 				cond, neg = u.X, true
 			}
-			call, ok := cond.(*ssa.Call)
-			if !ok {
-				continue
-			}
-			if name, _ := methodCall(call); name != "Done" {
-				continue
-			}
-			n++
-			key := core.FuncName(fn) + "/full-scan"
 			exitIdx := 0
 			if neg {
 				exitIdx = 1
 			}
+			if call, ok := cond.(*ssa.Call); ok {
+				if name, _ := methodCall(call); name != "Done" {
+					continue
+				}
+			} else if bo, ok := cond.(*ssa.BinOp); ok && !neg && bo.Op == token.LSS {
+				// index form: for i := 0; i < links.Length(); i++
+				phi, isPhi := core.Unconv(bo.X).(*ssa.Phi)
+				lc, isCall := core.Unconv(bo.Y).(*ssa.Call)
+				if !isPhi || !isCall || phi.Block() != h || !isCounterFromNonNeg(phi) {
+					continue
+				}
+				if name, _ := methodCall(lc); name != "Length" {
+					continue
+				}
+				exitIdx = 1
+			} else {
+				continue
+			}
+			n++
+			key := core.FuncName(fn) + "/full-scan"
 			inLoop := map[*ssa.BasicBlock]bool{}
 			for _, b := range fn.Blocks {
 				if h.Dominates(b) && (b == h || blockReaches(b, h)) {
@@ -970,4 +1002,86 @@ func (c *Ctx) checkIteratorYieldsKey() {
 		r.Check(len(bad) == 0, "M10", key, c.P.Pos(fn.Pos()), "every successful return carries a key", uniqJoin(bad))
 	}
 	r.Floor("M10", n, 1)
+}
+
+// checkFoundIffNonNil implements M11: a name lookup that searches a link list reports exactly what the search found.
+// In every LookupByString of a reader-package node type, for each result of a repository search function that is tested
+// against nil: on the nil edge every return carries a certainly non-nil error (not-found), on the non-nil edge every
+// return carries that very result with a nil error. An inverted test answers not-found for members and hands a nil
+// node with no error for everything else.
+func (c *Ctx) checkFoundIffNonNil() {
+	r := c.R
+	r.Rule("M11", "found iff non-nil: in each LookupByString of a directory-like node, the nil edge of the test on the search result leads only to returns with a certainly non-nil error, and the non-nil edge only to returns of that result with a nil error")
+	n := 0
+	for _, fn := range c.G.Funcs() {
+		rel, ok := c.P.PkgOf(fn)
+		if !ok || !core.ReaderPkgs[rel] || fn.Synthetic != "" || c.P.IsGenerated(fn.Pos()) || fn.Name() != "LookupByString" || fn.Signature.Recv() == nil {
+			continue
+		}
+		errIdx := core.ErrResultIndex(fn.Signature)
+		if errIdx != 1 {
+			continue
+		}
+		ord := 0
+		for _, b := range fn.Blocks {
+			iff := core.BlockIf(b)
+			if iff == nil {
+				continue
+			}
+			x, trueMeansNil, ok := core.NilCmp(iff.Cond)
+			if !ok || core.IsErrorType(x.Type()) {
+				continue
+			}
+			// x: the (first) result of a repository function handed the key
+			var src *ssa.Call
+			switch v := x.(type) {
+			case *ssa.Call:
+				src = v
+			case *ssa.Extract:
+				src, _ = v.Tuple.(*ssa.Call)
+			}
+			if src == nil || src.Call.StaticCallee() == nil {
+				continue
+			}
+			if _, isRepo := c.P.PkgOf(src.Call.StaticCallee()); !isRepo {
+				continue
+			}
+			ord++
+			n++
+			key := fmt.Sprintf("%s/found-iff-non-nil#%d", core.FuncName(fn), ord)
+			nilSucc, setSucc := b.Succs[0], b.Succs[1]
+			if !trueMeansNil {
+				nilSucc, setSucc = setSucc, nilSucc
+			}
+			var bad []string
+			core.EnumPathsFrom(nilSucc, 1, 5000, func(path []*ssa.BasicBlock) {
+				last := path[len(path)-1]
+				if ret, ok := last.Instrs[len(last.Instrs)-1].(*ssa.Return); ok {
+					if !core.ErrKnownNonNil(core.ResolvedResults(ret)[errIdx], nil) {
+						bad = append(bad, fmt.Sprintf("return at %s: nothing was found, yet the error is not certainly non-nil", c.P.Pos(ret.Pos())))
+					}
+				}
+			})
+			core.EnumPathsFrom(setSucc, 1, 5000, func(path []*ssa.BasicBlock) {
+				last := path[len(path)-1]
+				if ret, ok := last.Instrs[len(last.Instrs)-1].(*ssa.Return); ok {
+					rr := core.ResolvedResults(ret)
+					v := rr[0]
+					for i := 0; i < 3; i++ {
+						switch y := v.(type) {
+						case *ssa.MakeInterface:
+							v = y.X
+						case *ssa.ChangeInterface:
+							v = y.X
+						}
+					}
+					if !core.IsNilConst(rr[errIdx]) || v != x {
+						bad = append(bad, fmt.Sprintf("return at %s: an entry was found, yet it is not returned with a nil error", c.P.Pos(ret.Pos())))
+					}
+				}
+			})
+			r.Check(len(bad) == 0, "M11", key, c.P.Pos(iff.Cond.Pos()), "not-found exactly when the search result is nil", uniqJoin(bad))
+		}
+	}
+	r.Floor("M11", n, 2)
 }
